@@ -547,6 +547,26 @@ func c15Run(ctx *core.Ctx) {
 			c15Judge(ctx, "path", simpleManifest([]string{s + ".fga"}), true)
 		})
 	}
+	// white space at the edges and inside an entry (quoted scalars keep it): an entry is returned verbatim or rejected - never
+	// trimmed, and a trimmed look-alike of a good path (`wiki.fga `) is not a good path
+	{
+		k := 1 << 25
+		for _, w := range []string{" ", "\t", "\u00a0", "  ", " \t ", "\u3000"} {
+			for _, b := range []string{"a.fga", "dir/b.fga", "../x.fga", "/abs.fga", "c.txt", "a%2Efga", "%2e%2e/y.fga", "x\\y.fga", "", ".fga"} {
+				for _, e := range []string{w + b, b + w, w + b + w, "d" + w + "e/" + b, b + w + ".fga"} {
+					k++
+					if !ctx.Mine(k) {
+						continue
+					}
+					ctx.Eval(3)
+					ctx.Flag("c15:edge-whitespace")
+					c15Judge(ctx, "path-whitespace", simpleManifest([]string{e}), true)
+					c15Judge(ctx, "path-whitespace-second", simpleManifest([]string{"ok/a.fga", e}), true)
+					c15Judge(ctx, "path-whitespace-first", simpleManifest([]string{e, "ok/a.fga"}), true)
+				}
+			}
+		}
+	}
 	// segment sequences: every path of one to four segments drawn from a menu of look-alikes of the parent segment (names with
 	// leading, trailing and inner dot runs, encoded dots) joined by one of four separator spellings - paths of 11 to 30
 	// characters that the per-character enumeration above cannot reach, with several dot runs in one path
